@@ -176,6 +176,17 @@ def stream(spec, order, shared, must_use_all=True):
         for a in ui["inpt_sk"]:
             x = yield from value_of(a, depth)
             ops.append(x)
+        alt = None
+        if ui.get("commutative") and len(ops) == 2 and ops[0] != ops[1]:
+            # the flag licenses every consumer of the specification (greedy, encoder, checker) to swap the operands:
+            # the specification denotes both orders, so both must give the same value on this state
+            if ui["disasm"] in STATEFUL or not ui.get("outpt_sk"):
+                raise SpecError("instruction %s (%s) is flagged commutative" % (pid, ui["disasm"]))
+            for x in ops:
+                yield ("PUSH", x)
+            yield instr_of(ui, spec.libmap)
+            alt = st[-1]
+            yield ("POP", None)
         for x in reversed(ops):
             yield ("PUSH", x)
         yield instr_of(ui, spec.libmap)
@@ -185,6 +196,9 @@ def stream(spec, order, shared, must_use_all=True):
                 raise SpecError("multi-output instruction %s" % pid)
             vals[outs[0]] = st[-1]
             yield ("POP", None)
+            if alt is not None and alt != vals[outs[0]]:
+                raise SpecError("instruction %s (%s) is flagged commutative but its operand order matters"
+                                % (pid, ui["disasm"]))
         executed.add(pid)
 
     for pid in order:
